@@ -405,8 +405,11 @@ def known_class(c, rec, verdict, known):
     elif unit == "month" and n >= 12 and n % 12 != 0 and ymd and (ymd[1], ymd[2]) == (2, 29) and failed:
         # the years are applied first: the intermediate 29 feb does not exist and the calculation fails
         cls = CLASS_QUANT
-    elif unit == "month" and op == "-" and n % 12 != 0 and ymd and ymd[1] - n % 12 <= 0 and not failed:
-        cls = CLASS_BORROW                # the month wraps below january but the year is not decreased
+    elif unit == "month" and op == "-" and n % 12 != 0 and ymd and ymd[1] - n % 12 <= 0:
+        # the month wraps below january but the year is not decreased; a failure belongs to the class only when
+        # that wrong target (one year too late) does not exist: `29 jan 2026 - 23 months` visits 29 feb 2025
+        if not failed or not valid(ymd[0] - n // 12, ymd[1] - n % 12 + 12, ymd[2]):
+            cls = CLASS_BORROW
     return cls if cls in ids else None
 
 
